@@ -243,8 +243,22 @@ def run_one(h, crate, scratch, target_seed, timeout_s, mem_gb, extra_args=None, 
         os.setsid()
         resource.setrlimit(resource.RLIMIT_AS, (limit, limit))
 
+    peak = [0]
     with open(logp, "w") as lf:
         p = subprocess.Popen(cmd, cwd=crate, stdout=lf, stderr=subprocess.STDOUT, env=env, preexec_fn=pre)
+
+        def sample():
+            # peak resident memory of the whole process group (cargo-kani driver + cbmc), sampled every 2 s
+            while p.poll() is None:
+                try:
+                    out = subprocess.run(["ps", "-o", "rss=", "-g", str(p.pid)], stdout=subprocess.PIPE, text=True).stdout
+                    tot = sum(int(x) for x in out.split() if x.isdigit())
+                    peak[0] = max(peak[0], tot)
+                except Exception:
+                    pass
+                time.sleep(2)
+        th = threading.Thread(target=sample, daemon=True)
+        th.start()
         try:
             rc = p.wait(timeout=timeout_s)
             timed_out = False
@@ -260,6 +274,7 @@ def run_one(h, crate, scratch, target_seed, timeout_s, mem_gb, extra_args=None, 
     out = open(logp, errors="replace").read()
     r = parse_kani_output(out)
     r.update({"harness": name, "rc": rc, "wall_s": round(wall, 1), "timed_out": timed_out, "log": logp, "cmd": " ".join(cmd)})
+    r["stats"]["peak_rss_mb"] = peak[0] // 1024
     # build errors
     if "error: could not compile" in out or re.search(r"^error(\[E\d+\])?:", out, flags=re.M):
         r["build_error"] = "\n".join([l for l in out.splitlines() if l.startswith("error")][:10])
